@@ -40,6 +40,8 @@ def prop_ok(c, r):
     safeguard_trips = ln < 2 and len(cloud) > ln
     if safeguard_trips:
         error_seen = True
+    # "only when the run observed no error at all": an error anywhere in the run counts, also one that comes after the deletion
+    error_anywhere = error_seen or any((a[0] == 0 and a[1] in cfail) or (a[0] == 1 and [a[1], a[2]] in ufail) for a in acts)
     for a in acts:
         if a[0] == 0:
             if a[1] in cd:
@@ -60,8 +62,8 @@ def prop_ok(c, r):
                 after[g].add(b)
         else:
             g = a[1]
-            if error_seen:
-                return False, "deletes cloud group %d although the run had seen an error (%s)" % (g, desc)
+            if error_seen or error_anywhere:
+                return False, "deletes cloud group %d although the run %s an error (%s)" % (g, "had seen" if error_seen else "goes on to see", desc)
             if g not in cd:
                 return False, "deletes group %d which is not a cloud group (%s)" % (g, desc)
             if g in win:
